@@ -24,6 +24,33 @@ def eval_icmp(pred, a, b):
             "ugt": (a & 0xFFFFFFFF) > (b & 0xFFFFFFFF), "uge": (a & 0xFFFFFFFF) >= (b & 0xFFFFFFFF)}[pred]
 
 
+def lib_call_sites(prog, f, names, depth=0):
+    """[(call in f, library functions it stands for)]: direct calls of the named library functions, and calls of static
+    helpers of the same unit whose every answer is the unmodified result of such a call (`return deflate(...)` in one arm,
+    `return inflate(...)` in the other)"""
+    from ..errflow import ret_sources
+    out = []
+    for c in f.calls():
+        nm = norm_callee(c.callee) if c.callee else None
+        if nm in names:
+            out.append((c, {nm}))
+            continue
+        if not c.callee or depth >= 2:
+            continue
+        h = prog.fn(c.callee, f.unit)
+        if h is None or h.decl or h.unit is not f.unit or h is f:
+            continue
+        h.build()
+        inner = {id(x): ns for (x, ns) in lib_call_sites(prog, h, names, depth + 1)}
+        srcs = ret_sources(h)
+        if srcs and all(id(strip_casts(v)) in inner for (v, _b) in srcs):
+            ns = set()
+            for (v, _b) in srcs:
+                ns |= inner[id(strip_casts(v))]
+            out.append((c, ns))
+    return out
+
+
 def continuing_codes(f, loop, rvals, codes):
     """return codes for which control can get from the codec call back to the loop header"""
     header, body = loop
@@ -76,11 +103,12 @@ def codec_rule(chk, prog):
         f.build()
         chk.analysed(f)
         fname = f.unit.src.split("/")[-1]
-        calls = [c for c in f.calls() if norm_callee(c.callee) in CODECS]
-        zcalls = [c for c in f.calls() if norm_callee(c.callee) in ZSTD_CALLS]
+        csites = lib_call_sites(prog, f, CODECS)
+        calls = [c for (c, _ns) in csites]
+        zcalls = [c for (c, _ns) in lib_call_sites(prog, f, ZSTD_CALLS)]
         inst = "%s:process_data" % fname
         if calls:
-            lib, codes, okset = CODECS[norm_callee(calls[0].callee)]
+            lib, codes, okset = CODECS[sorted(csites[0][1])[0]]
             loop = f.loop_of(calls[0].bb)
             if loop is None:
                 chk.violation("K-codec", inst, calls[0], "codec call is not inside the transfer loop")
@@ -492,9 +520,10 @@ def finish_reachable_rule(chk, prog):
             if id(x) not in web:
                 return None
             return cond.pred
-        calls = [c for c in f.calls() if norm_callee(c.callee) in LIB]
-        compress_calls = [c for c in calls if norm_callee(c.callee) in ("deflate", "lzma_code", "BZ2_bzCompress", "ZSTD_compressStream2",
-                                                                         "ZSTD_compressStream", "ZSTD_endStream")]
+        lsites = lib_call_sites(prog, f, LIB)
+        calls = [c for (c, _ns) in lsites]
+        compress_calls = [c for (c, ns) in lsites if ns & {"deflate", "lzma_code", "BZ2_bzCompress", "ZSTD_compressStream2",
+                                                          "ZSTD_compressStream", "ZSTD_endStream"}]
         a_ok = False
         for c in compress_calls:
             needs_input = False
@@ -604,11 +633,17 @@ def end_means_end_rule(chk, prog):
             continue
         f.build()
         chk.analysed(f)
-        libcalls = [c for c in f.calls() if norm_callee(c.callee) in LIB]
+        libcalls = [c for (c, _ns) in lib_call_sites(prog, f, LIB)]
         inst = "%s:%s" % (f.unit.src.split("/")[-1], f.name)
         for (v, b) in ret_sources(f):
             w = strip_casts(v)
-            if not (w.is_const and w.is_int and w.sval == 1):
+            if w.is_inst and w.op == "call" and w.callee:
+                # `return restart_codec(s);` -- a static helper that can answer END stands for that answer
+                h = prog.fn(w.callee, f.unit)
+                if h is None or h.decl or h.unit is not f.unit or not any(
+                        strip_casts(v2).is_const and strip_casts(v2).is_int and strip_casts(v2).sval == 1 for (v2, _b2) in ret_sources(h.build())):
+                    continue
+            elif not (w.is_const and w.is_int and w.sval == 1):
                 continue
             n += 1
             dep = False
@@ -654,6 +689,20 @@ def truncated_rule(chk, prog):
                     on_end = True
                 if any(x is gb[0] for x in sl):
                     on_eof = True
+                # the test may sit in a static predicate that is handed both results
+                for hc in [x for x in [cond] + list(sl) if x.is_inst and x.op == "call" and x.callee]:
+                    h = prog.fn(hc.callee, f.unit)
+                    if h is None or h.decl or h.unit is not f.unit:
+                        continue
+                    h.build()
+                    for k, a in enumerate(hc.ops[:len(h.params)]):
+                        asl = [a] + list(backward_slice(a, phi_control=True, limit=300))
+                        tests = [x for x in h.insts() if x.op == "icmp" and strip_casts(x.ops[0]).is_arg and
+                                 strip_casts(x.ops[0]).idx == k]
+                        if any(x is pd[0] for x in asl) and any(t.ops[1].is_const and t.ops[1].is_int and t.ops[1].sval > 0 for t in tests):
+                            on_end = True
+                        if any(x is gb[0] for x in asl) and tests:
+                            on_eof = True
             if on_end and on_eof:
                 ok = b
         inst = "%s:eof" % f.name
